@@ -27,6 +27,14 @@ INERT = {
     'aiohttp_swagger', 'aiohttp_cors', 'collectd', 'cachetools', 'pyasn1', 'rsa', 'packaging_',
 }
 
+# extra names, one per line, in vf/shims/inert.d/*.txt (so several people can extend the set without editing this file)
+_d = os.path.join(os.path.dirname(os.path.abspath(__file__)), 'inert.d')
+if os.path.isdir(_d):
+    for _fn in sorted(os.listdir(_d)):
+        if _fn.endswith('.txt'):
+            with open(os.path.join(_d, _fn)) as _f:
+                INERT.update(x.strip() for x in _f if x.strip() and not x.startswith('#'))
+
 stub_calls: Counter = Counter()
 stubbed_imports: Counter = Counter()
 
